@@ -7,6 +7,7 @@ evaluated under the independently overlaid dictionary (lvf.universe.overlay).
 Snapshot monitor: structure and identity of every caller-owned dictionary.
 """
 import copy
+import itertools
 
 from .. import boot  # noqa: F401
 import labrea.cache
@@ -29,7 +30,7 @@ RULE = (
 )
 ASSUMPTIONS = ["overlay semantics re-implemented independently of confectioner.mix (sections merged key by key, lists and scalars replaced)"]
 FLOORS = {"wrapper_cases": (1500, 40000), "dataset_preset_cases": (800, 20000), "derivative_cases": (800, 20000),
-          "snapshots_checked": (8000, 200000), "overlay_mattered": (500, 10000), "inplace_history_steps": (3000, 80000), "prefix_named_key_steps": (190, 190)}
+          "snapshots_checked": (8000, 200000), "overlay_mattered": (500, 10000), "inplace_history_steps": (3000, 80000), "prefix_named_key_steps": (190, 190), "map_overlay_cases": (800, 20000), "map_overlay_multi": (250, 6000)}
 SHARDS_QUICK = 4
 
 
@@ -298,6 +299,50 @@ def inplace_history_case(ctx, r):
             ctx.nontrivial(spec_hash(["inplace", prog, wrappers, edits]))
 
 
+def map_overlay_case(ctx, r):
+    """A Map is the pre-set-options wrapper applied once per combination: every element is X evaluated under the
+    caller's dictionary overlaid by THAT combination's assignment (sections merged key by key, also when several
+    mapped keys live in one section) - and the caller's dictionary is left alone."""
+    g, prog = gen_x(r, depth=1)
+    keys = r.sample(["A", "B", "S.X", "S.Y", "T.X", "S.Z"], r.choice([1, 2, 2, 3]))
+    lists = [[r.choice(U.SCALARS) for _ in range(r.choice([1, 2, 3]))] for _ in keys]
+    mprog = {"datasets": prog["datasets"], "root": {"k": "map", "body": prog["root"], "iters": [[k, {"k": "const", "v": l}] for k, l in zip(keys, lists)]}}
+    o = U.random_options(r, templated=0.0)
+    o_in = copy.deepcopy(o)
+    G = build(mprog)
+    with labrea.cache.disabled():
+        got = observe(lambda: [(a, v) for a, v in G.root.evaluate(o)])
+    ctx.evaluations += 1
+    ctx.count("map_overlay_cases")
+    W = {"kind": "map-overlay", "program": mprog, "options": o}
+    if o != o_in:
+        ctx.violation("input-mutated", "Map.evaluate changed the caller's dictionary", W)
+        return
+    expected = []
+    for combo in itertools.product(*lists):
+        oo = copy.deepcopy(o)
+        for k, v in zip(keys, combo):
+            oo = U.overlay(oo, U._nest(k, v)) if "." in k else {**oo, k: v}
+        with labrea.cache.disabled():
+            ev = observe(build(prog).root.evaluate, oo)
+        if ev[0] != "ok":
+            expected = None  # (a failing element fails the whole Map when it is consumed)
+            break
+        expected.append((dict(zip(keys, combo)), ev[1]))
+    if expected is None:
+        if got[0] == "ok":
+            ctx.violation("map-vs-overlaid", f"an element fails under its overlaid dictionary but the Map evaluated to {short(got)}", W)
+        return
+    from ..outcome import canon
+
+    if got[0] != "ok" or got[1] != ("L", tuple(("T", (canon(a), v)) for a, v in expected)):
+        ctx.violation("map-vs-overlaid", f"Map over {keys} gives {short(got)}; X under the overlaid dictionaries gives {short(expected)}", W)
+        return
+    if len(expected) > 1:
+        ctx.count("map_overlay_multi")
+        ctx.nontrivial(spec_hash(["map-overlay", mprog, o]))
+
+
 def prefix_named_keys(ctx):
     """Derivatives of ONE dataset share its store; what keeps their values apart is the merged dictionary alone.
     Option names that are string prefixes of each other (A / AB, S.X / S.XL) are the adversarial alphabet for that."""
@@ -328,6 +373,7 @@ def run(ctx):
         dataset_preset_case(ctx, r)
         derivative_case(ctx, r)
         inplace_history_case(ctx, r)
+        map_overlay_case(ctx, r)
 
 
 def replay(ctx, rep):
